@@ -25,6 +25,7 @@ import (
 	"strings"
 	"sync"
 	"testing"
+	"unicode"
 
 	"github.com/google/jsonschema-go/jsonschema"
 	"github.com/modelcontextprotocol/go-sdk/jsonrpc"
@@ -69,6 +70,28 @@ type ttInE struct {
 	Size  int64  `json:"size,omitempty"`
 	Mode  string `json:"mode,omitempty"`
 	Limit int64  `json:"limit,omitempty"`
+}
+
+// camelCase / Capitalised / untagged member names, nested: a member of the arguments whose name differs
+// from these only in case is a DIFFERENT member (JSON names are case-sensitive; the schema validates it
+// as an additional property, the typed decode must drop it)
+type ttSubC struct {
+	HostName string `json:"hostName"`
+	PortNo   int64  `json:"PortNo,omitempty"`
+}
+type ttInC struct {
+	Query    string  `json:"query"`
+	MaxItems int64   `json:"maxItems"`
+	PageSize int64   `json:"PageSize,omitempty"`
+	UserID   string  `json:"userID,omitempty"`
+	DryRun   bool    `json:"dryRun,omitempty"`
+	SubOpts  ttSubC  `json:"subOpts"`
+	OptSub   *ttSubC `json:"OptSub,omitempty"`
+	Verbose  bool    // no tag: the JSON name is the Go name
+}
+type ttOutC struct {
+	TotalCount int64  `json:"totalCount"`
+	NextPage   string `json:"NextPage,omitempty"`
 }
 
 type ttOutA struct {
@@ -180,6 +203,8 @@ var ttRegs = []ttReg{
 	ttMk[ttInA, *int64]("A/PI"),
 	ttMk[ttInB, ttOutB]("B/B"), ttMk[map[string]any, any]("M/Y"), ttMk[ttInE, map[string]any]("E/M"),
 	ttMk[any, any]("Y/Y"), ttMk[ttInB, []int64]("B/SI"),
+	ttMk[ttInC, ttOutA]("C/A"), ttMk[*ttInC, ttOutA]("PC/A"), ttMk[ttInC, ttOutC]("C/C"), ttMk[ttInC, *ttOutC]("C/PC"),
+	ttMk[ttInC, any]("C/Y"), ttMk[ttInA, ttOutC]("A/C"),
 }
 
 func ttRegByName(n string) *ttReg {
@@ -233,7 +258,11 @@ func ttDescribe(t reflect.Type) *ttTy {
 					oe = true
 				}
 			}
-			ty.Fields = append(ty.Fields, ttField{N: tag[0], OE: oe, T: ttDescribe(f.Type)})
+			name := tag[0]
+			if name == "" {
+				name = f.Name
+			}
+			ty.Fields = append(ty.Fields, ttField{N: name, OE: oe, T: ttDescribe(f.Type)})
 		}
 		return ty
 	}
@@ -493,7 +522,8 @@ type ttGen struct {
 	lax      bool // drop some type constraints (schema laxer than the Go type)
 	bigbound bool // bounds / enum members beyond 2^53 (jsonschema-go holds them as float64)
 	feat     map[string]bool
-	topMuts  int // number of whole-value replacements at the head of the last mutation list
+	variants bool // argument objects may carry extra members that are case variants of declared properties
+	topMuts  int  // number of whole-value replacements at the head of the last mutation list
 	depthMut int
 }
 
@@ -859,6 +889,109 @@ func (g *ttGen) anyValue(depth int) any {
 	}
 }
 
+// caseVariant returns a spelling of name that differs from it only in the case of letters (upper, lower,
+// title, first letter flipped, random mix); ok=false when the name has no letters.
+func (g *ttGen) caseVariant(name string) (string, bool) {
+	rs := []rune(name)
+	flip := func(r rune) rune {
+		if unicode.IsUpper(r) {
+			return unicode.ToLower(r)
+		}
+		return unicode.ToUpper(r)
+	}
+	var cands []string
+	add := func(v string) {
+		if v == name {
+			return
+		}
+		for _, c := range cands {
+			if c == v {
+				return
+			}
+		}
+		cands = append(cands, v)
+	}
+	add(strings.ToUpper(name))
+	add(strings.ToLower(name))
+	if len(rs) > 0 {
+		add(string(unicode.ToUpper(rs[0])) + strings.ToLower(string(rs[1:]))) // Title
+		add(string(flip(rs[0])) + string(rs[1:]))                             // first letter flipped
+		last := append([]rune(nil), rs...)
+		last[len(last)-1] = flip(last[len(last)-1])
+		add(string(last)) // last letter flipped
+	}
+	for try := 0; try < 2; try++ {
+		mix := append([]rune(nil), rs...)
+		for i := range mix {
+			if g.coin(0.4) {
+				mix[i] = flip(mix[i])
+			}
+		}
+		add(string(mix))
+	}
+	if len(cands) == 0 {
+		return "", false
+	}
+	return cands[g.r.Intn(len(cands))], true
+}
+
+// variantMembers adds to the object out (an instance of a schema with these properties) one or two extra
+// members whose names are case variants of declared properties. They are ADDITIONAL properties: what
+// they hold is constrained by additionalProperties only (apSchema, when that is a schema), so the
+// value is drawn valid for that, or — when anything goes — valid for the property of the similar
+// name, invalid for it (one mutation), or arbitrary.
+func (g *ttGen) variantMembers(out map[string]any, props map[string]any, names []string, apSchema any, depth int) bool {
+	added := false
+	for n := 1 + g.r.Intn(3)/2; n > 0; n-- {
+		k := names[g.r.Intn(len(names))]
+		vn, ok := g.caseVariant(k)
+		if !ok {
+			continue
+		}
+		if _, declared := props[vn]; declared {
+			continue
+		}
+		if _, there := out[vn]; there {
+			continue
+		}
+		var v any
+		if m, isMap := apSchema.(map[string]any); isMap && len(m) > 0 {
+			if v, ok = g.valid(apSchema, depth+1); !ok {
+				continue
+			}
+		} else {
+			switch x := g.r.Intn(100); {
+			case x < 45:
+				if v, ok = g.valid(props[k], depth+1); !ok {
+					continue
+				}
+			case x < 85:
+				if v, ok = g.valid(props[k], depth+1); !ok {
+					continue
+				}
+				root := v
+				var muts []ttMut
+				sd, st := g.depthMut, g.topMuts
+				g.depthMut = 0
+				g.mutations(props[k], root, func(nv any) { root = nv }, &muts)
+				g.depthMut, g.topMuts = sd, st
+				if len(muts) > 0 {
+					muts[g.r.Intn(len(muts))].apply()
+					v = root
+				}
+			default:
+				v = g.anyValue(depth + 1)
+			}
+		}
+		out[vn] = v
+		added = true
+	}
+	if added {
+		g.feat["variant"] = true
+	}
+	return added
+}
+
 // valid builds an instance valid for schema s by construction (ok=false when it gives up).
 func (g *ttGen) valid(sv any, depth int) (any, bool) {
 	s, isMap := sv.(map[string]any)
@@ -1042,6 +1175,9 @@ func (g *ttGen) valid(sv any, depth int) (any, bool) {
 				out[g.pick("zz", "extra2", "k9")] = v
 			}
 		}
+		if b, isB := ap.(bool); g.variants && len(names) > 0 && !(hasAP && isB && !b) && g.coin(0.3) {
+			g.variantMembers(out, props, names, ap, depth)
+		}
 		return out, true
 	}
 	return nil, false
@@ -1161,6 +1297,14 @@ func (g *ttGen) mutations(sv any, v any, set func(any), out *[]ttMut) {
 		ap, hasAP := s["additionalProperties"]
 		if b, isB := ap.(bool); hasAP && isB && !b {
 			*out = append(*out, ttMut{"additional", func() { obj["unexpected"] = ttNum("1") }})
+			if pn := make([]string, 0, len(props)); g.variants && len(props) > 0 {
+				for k := range props {
+					pn = append(pn, k)
+				}
+				sort.Strings(pn)
+				// a closed object refuses a case variant of a declared property like any other extra member
+				*out = append(*out, ttMut{"additional-variant", func() { g.variantMembers(obj, props, pn, nil, 1) }})
+			}
 		}
 		keys := make([]string, 0, len(obj))
 		for k := range obj {
@@ -1509,6 +1653,32 @@ func (w *ttWorld) tool(toks []string) (op string, obs string, tags []string) {
 	return op, fmt.Sprintf("ok pi=x%s po=%s", hx(ib), po), tags
 }
 
+// ttVariantTags reports the members of v that are not declared properties but differ from one only in
+// case: next to the property (sorting before / after it) or without it.
+func ttVariantTags(s *jsonschema.Schema, v any, out map[string]bool) {
+	obj, ok := v.(map[string]any)
+	if !ok || s == nil {
+		return
+	}
+	for k, e := range obj {
+		if ps, declared := s.Properties[k]; declared {
+			ttVariantTags(ps, e, out)
+			continue
+		}
+		for p := range s.Properties {
+			if strings.EqualFold(p, k) {
+				if _, both := obj[p]; !both {
+					out["cv-alone"] = true
+				} else if k > p {
+					out["cv-after"] = true
+				} else {
+					out["cv-before"] = true
+				}
+			}
+		}
+	}
+}
+
 // ttCall performs one tools/call described by the op.
 func (w *ttWorld) call(toks []string) (obs string, tags []string) {
 	name := ttKV(toks, "tool")
@@ -1567,6 +1737,15 @@ func (w *ttWorld) call(toks []string) (obs string, tags []string) {
 	tags = append(tags, "args:"+argShape, "content:"+spec.content, fmt.Sprintf("herr:%d", spec.herr))
 	if gt := ttKV(toks, "gen"); gt != "" {
 		tags = append(tags, "gen:"+gt)
+	}
+	if ti.inRS != nil {
+		cv := map[string]bool{}
+		ttVariantTags(ti.inRS.Schema(), argsVal, cv)
+		for _, k := range []string{"cv-after", "cv-alone", "cv-before"} {
+			if cv[k] {
+				tags = append(tags, k)
+			}
+		}
 	}
 	lib := "-"
 	if argShape != "nonobj" {
@@ -1894,12 +2073,14 @@ func (c *ttCaseGen) addCall(t *ttGenTool) {
 	case x < 9:
 		args, atag = "x"+hxs(g.pick("[1]", `"str"`, "5", "true", "[]")), "gen:nonobj"
 	default:
+		g.variants = true
 		tx, tg := g.instance(t.ischV)
+		g.variants = false
 		args, atag = "x"+hxs(tx), tg
 	}
 	out := ""
 	switch {
-	case t.outTy.K == "ptr" && g.coin(0.2):
+	case t.outTy.K == "ptr" && g.coin(0.3):
 		out = "nilptr"
 	case t.outTy.K == "any" && g.coin(0.2):
 		out = "nilany"
@@ -1980,7 +2161,9 @@ func ttGenCase(r *rand.Rand, nCalls int) []string {
 			n++
 			reg := pivot
 			if n > 1 {
-				if g.coin(0.7) {
+				if x := g.r.Float64(); x < 0.2 {
+					reg = pivot // the same Go types again: both type entries of a shared cache are hit
+				} else if x < 0.75 {
 					reg = related[g.r.Intn(len(related))]
 				} else {
 					reg = &ttRegs[r.Intn(len(ttRegs))]
@@ -2064,7 +2247,7 @@ func TestVerifTypedTool(t *testing.T) {
 		f64 = append(f64, "f64 "+n.String())
 	}
 	runCase(f64)
-	n := verifN(750, 20000)
+	n := verifN(1100, 20000)
 	for i := 0; i < n; i++ {
 		runCase(ttGenCase(r, 8))
 	}
